@@ -1,7 +1,7 @@
 (** C05 — operations terminate and leave nothing running, even when cancelled mid-flight.
     PARTIAL: the theorems are about the accounting models of the two joins; real time and real goroutine
     liveness are observed by the correspondence harness. *)
-From GV Require Import Base.Prelude Model.Join Proofs.JoinProofs Model.SseLock Proofs.SseLockProofs.
+From GV Require Import Base.Prelude Model.Join Proofs.JoinProofs Model.SseLock Proofs.SseLockProofs Model.ElemPanic Proofs.ElemPanicProofs.
 From GV Require Import Model.MpLock Proofs.MpLockInv Proofs.MpLockProofs.
 Open Scope nat_scope.
 
@@ -81,3 +81,14 @@ Example C05_multipart_nonvacuous :
                MLHandler; MLHandler; MLHandler; MLHandler; MLHandler; MLHandler; MLHandler; MLHandler; MLHandler; MLTick; MLTicker; MLTicker; MLTicker; MLSeeDone] = Some s /\
             returned s = true /\ m_k s = MKEnd /\ m_out s = [(MK, [1]); (MH, [2; 3])]%nat.
 Proof. exact mp_sample_runs. Qed.
+
+
+(** ** list element goroutines that panic inside generated code (Model.ElemPanic): the join is reached - short of it
+    some goroutine can always step, and a run of n elements has exactly 3n + 1 steps whatever the interleaving (each
+    step takes one unit of the work that is left), for the code as written and for both slips alike *)
+Theorem C05_list_element_panics_join_reached : forall plan tr s,
+  erun as_written_elems (einit plan) tr = Some s ->
+  (e_joined s = None -> exists l, estep as_written_elems s l <> None) /\
+  (List.length tr + etodo s = 3 * List.length plan + 1)%nat.
+Proof. intros plan tr s R. split; [exact (elems_progress_lemma plan tr s R)|exact (elems_bounded_lemma _ plan tr s R)]. Qed.
+Print Assumptions C05_list_element_panics_join_reached.
